@@ -68,6 +68,12 @@ class ApiHarness(ex.Harness):
                         shutil.rmtree(R, ignore_errors=True)
                     elif k == "wait":
                         vsched.vtime.sleep(op[1])
+                    elif k == "add_handler":
+                        obs.add_handler_for_watch(Handler(), state["watch"])
+                    elif k == "remove_handler":
+                        obs.remove_handler_for_watch(handler, state["watch"])
+                    elif k == "schedule_other":
+                        obs.schedule(Handler(), R, recursive=True)
                 except vsched.Abort:
                     raise
                 except Exception as e:  # noqa: BLE001 - calls that raise by contract
@@ -75,6 +81,16 @@ class ApiHarness(ex.Harness):
                 log.append(("ret", tid, op, err))
 
             class Handler(evm.FileSystemEventHandler):
+                def __init__(self):
+                    state["handlers"] = state.get("handlers", 0) + 1
+                    self._h = state["handlers"]     # fixed hash: set iteration order must not depend on id()
+
+                def __hash__(self):
+                    return self._h
+
+                def __eq__(self, o):
+                    return self is o
+
                 def on_any_event(self, event):
                     k = state["cb"]
                     state["cb"] += 1
@@ -155,6 +171,9 @@ def programs(tier):
         P.append((f"{kind} schedule|stop", dict(kind=kind, init=[("start",)], threads=[[("schedule",)], [("stop",)]])))
         P.append((f"{kind} reent-stop", dict(kind=kind, init=ini, threads=[[("touch",)]], reentrant={0: ("stop",)})))
         P.append((f"{kind} reent-unschedule", dict(kind=kind, init=ini, threads=[[("touch",)]], reentrant={0: ("unschedule",)})))
+        P.append((f"{kind} reent-remove-handler", dict(kind=kind, init=ini, threads=[[("touch",), ("touch",)]], reentrant={0: ("remove_handler",)})))
+        P.append((f"{kind} reent-add-handler", dict(kind=kind, init=ini, threads=[[("touch",), ("touch",)]], reentrant={0: ("add_handler",)})))
+        P.append((f"{kind} reent-schedule-other", dict(kind=kind, init=ini, threads=[[("touch",), ("touch",)]], reentrant={0: ("schedule_other",)})))
         if tier == "thorough":
             P.append((f"{kind} reent-unschedule_all-ext-stop", dict(kind=kind, init=ini, threads=[[("touch",)], [("stop",)]],
                                                                    reentrant={0: ("unschedule_all",)})))
